@@ -1,4 +1,4 @@
-import SgVerif.TimeCore.Waits
+import SgVerif.TimeCore.Exact
 /-
 C12 — Timed waits are exact.  Property theorems (nothing else here).
 Model: SgVerif/TimeCore/Model.lean (ActivityImpl::wait_for / wait_any_for / test / cancel, Timer, EngineImpl::solve).
@@ -11,8 +11,9 @@ It is proved as its components, each for EVERY kernel state / every run:
   the clock never jumps over the deadline      clock_never_skips_deadline     (any state)
   at the deadline: completed => no timeout     completion_at_deadline_counts
   at the deadline: not completed => timeout    timeout_when_not_completed
-The gluing invariant over runs (the timer stays pending until it fires or the activity finishes; the actor is
-registered nowhere else) is NOT proved in Lean: it is what the model replay and the monitor check on every program.
+The gluing invariant over runs (the actor is registered nowhere else, the timer and `timeout_cb_` point to each
+other, no pending timer is in the past, callbacks run at exactly their date) is proved in the second pass:
+`wait_for_exact`, `wait_any_for_spec`, `timeout_exact`, `no_stale_timeout` at the end of this file.
 "completed by the deadline" is the kernel's notion: the activity's action is FINISHED when `Timer::execute_all` runs
 (`update_actions_state` runs before).  A message whose put is executed by an actor woken at the deadline's date is
 matched in a later scheduling round of that date, i.e. after the timer: the wait times out (corpus case).
@@ -84,7 +85,109 @@ theorem wait_any_for_timeout_at_deadline (k : K) (id : Nat) (date : Rat) (a : Na
     k'.toRun = k.toRun ++ [a] ∧ (k'.actor a).res = .timeout ∧ (k'.actor a).blocked = false ∧ k'.bad = k.bad :=
   fire_wany_timeout k id date a is ha hb
 
+/-! ## Run-level theorems (second pass)
+
+`run fuel (initSt progs ties)` ranges over all programs, tie resolutions and fuels.  The two invariants used are the
+date invariants (`TimeCore/Dates.lean`: no pending timer in the past, every callback executed at exactly its date) and
+the registration invariant (`TimeCore/Reg.lean`: no stale simcall registration; timeout timers and
+`simcall_.timeout_cb_` point to each other). -/
+
+/-- the timeout of a wait fires at EXACTLY its date (never early, never late): every run -/
+theorem timeout_exact (progs : List (List Op)) (ties : List Nat) (fuel : Nat) :
+    ∀ x ∈ (run fuel (initSt progs ties)).fired, x.1 = x.2.date :=
+  (run_sinv fuel _ (initSt_sinv progs ties)).fired
+
+/-- **wait_for_exact** (run level).  In EVERY reachable state, for every pending timeout timer `t` of a `wait_for`
+made by a non-dying actor `a` on activity `i` (the timer was created by `wait_for_sets_deadline` with date exactly
+`t0 + tau`, and `timeout_exact`: it is executed at exactly that date):
+* the deadline has not passed; `a` is blocked in that simcall, registered on exactly `[i]` — once — and its
+  `timeout_cb_` is this timer (so the wait can only end by the completion of `i`, by this timer, or by a kill);
+* when `Timer::execute_all` pops it: if the action of `i` has FINISHED or FAILED — a completion at the deadline's
+  date counts, `update_actions_state` ran before — NO timeout is raised, `a` stays blocked and registered on `[i]` and
+  is answered normally by `handle_ended_actions`; otherwise the wait times out NOW: result `timeout`, `a` scheduled,
+  registered nowhere, no timer left.  The invariant still holds afterwards. -/
+theorem wait_for_exact (progs : List (List Op)) (ties : List Nat) (fuel : Nat) (j : Nat) (t : Timer) (a i : Nat)
+    (ht : (run fuel (initSt progs ties)).k.timers[j]? = some t) (hcb : t.cb = .wto a i)
+    (hwd : ((run fuel (initSt progs ties)).k.actor a).wannadie = false) :
+    let s := run fuel (initSt progs ties)
+    let k' := ({ s.k with timers := removeNth s.k.timers j } : K).fire t
+    (s.now ≤ t.date ∧ (s.k.actor a).blocked = true ∧ (s.k.actor a).waiting = [i] ∧
+      (s.k.actor a).tcb = some t.id ∧ (s.k.impl i).simcalls.count a = 1) ∧
+    (((s.k.impl i).act = .finished ∨ (s.k.impl i).act = .failed) →
+        k'.toRun = s.k.toRun ∧ (k'.actor a).blocked = true ∧ (k'.actor a).waiting = [i] ∧
+        (k'.actor a).res = (s.k.actor a).res ∧ (k'.actor a).tcb = none) ∧
+    (((s.k.impl i).act ≠ .finished ∧ (s.k.impl i).act ≠ .failed) →
+        k'.toRun = s.k.toRun ++ [a] ∧ (k'.actor a).res = .timeout ∧ (k'.actor a).blocked = false ∧
+        (k'.actor a).waiting = [] ∧ a ∉ (k'.impl i).simcalls ∧ (k'.actor a).tcb = none) ∧
+    RegInv k' := by
+  obtain ⟨h, d⟩ := reachable_inv progs ties fuel
+  obtain ⟨p1, p2, _, p4, p5, p6, _, _⟩ := wto_timer_spec h d t a i (List.mem_of_getElem? ht) hcb hwd
+  obtain ⟨q1, q2, q3⟩ := wto_fire_spec h d j t a i ht hcb hwd
+  exact ⟨⟨p1, p2, p4, p5, p6⟩, q2, q3, q1⟩
+
+/-- **wait_any_for_spec** (run level).  In every reachable state, for every pending timeout timer of a
+`wait_any_for` over `is` made by a non-dying actor `a`: the deadline has not passed, `a` is blocked in that simcall
+(`anyList = is`), registered on a sub-multiset of `is` (the activities registered before a finished one was found —
+all of them if none was), and when the timer is executed — at exactly the deadline, `timeout_exact` — `a` is answered
+with the timeout, whatever the state of the activities (`wait_any_for_timeout_at_deadline`), and is then registered
+nowhere.  An activity of the set that completes BEFORE the deadline answers `a` when it completes
+(`K.finish` → `unregister_first_simcall`, which removes this timer: `no_stale_timeout` below). -/
+theorem wait_any_for_spec (progs : List (List Op)) (ties : List Nat) (fuel : Nat) (j : Nat) (t : Timer) (a : Nat)
+    (is : List Nat) (ht : (run fuel (initSt progs ties)).k.timers[j]? = some t) (hcb : t.cb = .wany a is)
+    (hwd : ((run fuel (initSt progs ties)).k.actor a).wannadie = false) :
+    let s := run fuel (initSt progs ties)
+    let k' := ({ s.k with timers := removeNth s.k.timers j } : K).fire t
+    (s.now ≤ t.date ∧ (s.k.actor a).blocked = true ∧ (s.k.actor a).anyList = is ∧
+      (∀ i, (s.k.actor a).waiting.count i ≤ is.count i) ∧ (s.k.actor a).tcb = some t.id) ∧
+    k'.toRun = s.k.toRun ++ [a] ∧ (k'.actor a).res = .timeout ∧ (k'.actor a).blocked = false ∧
+    ((k'.actor a).wannadie = false → (k'.actor a).waiting = [] ∧ ∀ i, a ∉ (k'.impl i).simcalls) ∧ RegInv k' := by
+  obtain ⟨h, d⟩ := reachable_inv progs ties fuel
+  obtain ⟨p1, p2, _, p4, p5, p6, _⟩ := wany_timer_spec h d t a is (List.mem_of_getElem? ht) hcb hwd
+  obtain ⟨q1, q2, q3, q4, q5⟩ := wany_fire_spec h d j t a is ht hcb hwd
+  exact ⟨⟨p1, p2, p4, p5, p6⟩, q2, q3, q4, q5, q1⟩
+
+/-- **no_stale_timeout** (run level): an actor that is not blocked in a handled simcall has no timeout timer pending —
+a wait that ended by completion removed its timer (`unregister_first_simcall`), so no timeout can fire later on
+another simcall of the same actor. -/
+theorem no_stale_timeout (progs : List (List Op)) (ties : List Nat) (fuel : Nat) (a : Nat)
+    (hwd : ((run fuel (initSt progs ties)).k.actor a).wannadie = false)
+    (hid : ((run fuel (initSt progs ties)).k.actor a).idle = true) :
+    ((run fuel (initSt progs ties)).k.actor a).tcb = none ∧
+    ∀ t ∈ (run fuel (initSt progs ties)).k.timers, cbActor t.cb ≠ some a :=
+  let r := (reachable_registration progs ties fuel a hwd).2.1 hid
+  ⟨r.2.1, r.2.2⟩
+
+/-- the deadline of a pending timeout is never passed: every run -/
+theorem deadline_never_passed (progs : List (List Op)) (ties : List Nat) (fuel : Nat) :
+    ∀ t ∈ (run fuel (initSt progs ties)).k.timers, (run fuel (initSt progs ties)).now ≤ t.date :=
+  (run_sinv fuel _ (initSt_sinv progs ties)).d.tim
+
 /-! non-vacuity -/
+
+/-- the fixed `wait_for` on a waiting message: one timer, the actor registered once; after its firing nothing is left
+(the old double registration leaves a stale registration: `wait_for_double_registration_regression`) -/
+example : kNew.timers = [{ id := 0, date := 0 + 0, cb := .wto 0 0 }] ∧ (kNew.actor 0).wannadie = false := by
+  simp [kNew, kReg0, K.handle, K.register, K.setImpl, K.setActor, K.actor, K.impl, upd, K.timerSet]
+
+/-- a state satisfying the registration invariant with a pending `wait_for` timer of a non-dying actor; popping and
+firing it keeps the invariant (`fire_reg`) -/
+example : RegInv kNew ∧ kNew.timers[0]? = some { id := 0, date := 0 + 0, cb := .wto 0 0 } ∧
+    (kNew.actor 0).wannadie = false ∧ RegInv kNewFired :=
+  ⟨kNew_reg, kNew_shape.2.2.2, kNew_shape.2.2.1, fire_reg kNew 0 _ kNew_reg kNew_shape.2.2.2⟩
+
+example : (kNewFired.actor 0).waiting = [] ∧ ¬ RegInv kOldFired :=
+  ⟨kNewFired_clean.1, wait_for_double_registration_regression⟩
+
+/-- a timer whose date is the clock is executed and recorded: the `fired` trace is not vacuous -/
+example (s : St) (t : Timer) (h : s.k.timers = [t]) (hd : t.date = s.now) :
+    (execAll 1 s false).1.fired = s.fired ++ [(s.now, t)] := by
+  have : ¬ (s.now < s.now) := Rat.lt_irrefl
+  simp [execAll, h, hd, minDate, pick, List.range, List.range.loop, this]
+
+example : ((run 0 (initSt [[.waitFor 0 1]] [])).k.actor 0).wannadie = false ∧
+    ((run 0 (initSt [[.waitFor 0 1]] [])).k.actor 0).idle = true := by
+  simp [run, initSt, K.actor, Actor.idle]
+
 
 def kEx : K := { impls := [{ kind := .exec, st := .running, act := .started, simcalls := [0] }],
                  actors := [{ prog := [], blocked := true, waiting := [0] }] }
